@@ -34,6 +34,45 @@ structure SignLaw {W : Type} (P : Prims W) : Prop where
   /-- `SigningKey(seed).verify_key` is the public half of `crypto_sign_seed_keypair(seed)`. -/
   pub_ok : ∀ seed, P.edPub seed = (P.keypair seed).1
 
+/-! ## CTR mode as "xor with a key stream": the involution law follows -/
+
+def xorBytes (m s : Bytes) : Bytes := List.zipWith (· ^^^ ·) m s
+
+theorem xorBytes_length (m s : Bytes) (h : m.length ≤ s.length) : (xorBytes m s).length = m.length := by
+  simp [xorBytes]; omega
+
+theorem xorBytes_invol : ∀ (m s : Bytes), m.length ≤ s.length → xorBytes (xorBytes m s) s = m
+  | [], _, _ => by simp [xorBytes]
+  | _ :: _, [], h => by simp at h
+  | a :: as, b :: bs, h => by
+    have ih := xorBytes_invol as bs (by simpa using h)
+    unfold xorBytes at ih ⊢
+    simp only [List.zipWith_cons_cons, ih, Nat.xor_assoc, Nat.xor_self, Nat.xor_zero]
+
+/-- the DEFINITION of counter mode, as a weaker-looking hypothesis: the output is the input xor the first
+`len` bytes of a key stream determined by key and initial counter. -/
+def CtrIsStream {W : Type} (P : Prims W) : Prop :=
+  ∃ ks : Bytes → Bytes → Nat → Bytes, (∀ k iv n, (ks k iv n).length = n) ∧
+    ∀ k iv m, P.ctr k iv m = xorBytes m (ks k iv m.length)
+
+theorem ctr_laws_of_stream {W : Type} (P : Prims W) (h : CtrIsStream P) :
+    (∀ k iv m, P.ctr k iv (P.ctr k iv m) = m) ∧ (∀ k iv m, (P.ctr k iv m).length = m.length) := by
+  obtain ⟨ks, hl, hc⟩ := h
+  have hlen : ∀ k iv m, (P.ctr k iv m).length = m.length := fun k iv m => by
+    rw [hc]; exact xorBytes_length _ _ (by rw [hl]; exact Nat.le_refl _)
+  refine ⟨fun k iv m => ?_, hlen⟩
+  rw [hc k iv (P.ctr k iv m), hlen, hc k iv m]
+  exact xorBytes_invol _ _ (by rw [hl]; exact Nat.le_refl _)
+
+/-- `ChannelLaws` from DH commutativity, the conversion law, digest lengths and "CTR is a stream cipher". -/
+theorem channelLaws_of_stream {W : Type} (P : Prims W)
+    (dh_comm : ∀ a b, P.dh a (P.xPub b) = P.dh b (P.xPub a))
+    (conv : ∀ seed, P.edToXPub (P.edPub seed) = P.xPub (P.edToXPriv seed))
+    (H_len : ∀ x, (P.H x).length = 32) (dh_len : ∀ a b, (P.dh a b).length = 32)
+    (hs : CtrIsStream P) : ChannelLaws P :=
+  { dh_comm := dh_comm, conv := conv, ctr_invol := (ctr_laws_of_stream P hs).1,
+    ctr_len := (ctr_laws_of_stream P hs).2, H_len := H_len, dh_len := dh_len }
+
 /-! ## bytes comparison -/
 
 theorem bytesLt_asymm : ∀ (a b : Bytes), bytesLt a b = true → bytesLt b a = false
